@@ -392,7 +392,9 @@ func (bs *blockState) callFuncValue(x *ssa.Call) {
 		args = append(args, bs.val(a))
 	}
 	// callback contracts may name the function value itself as first parameter "self"
-	if len(spec.Params) == len(args)+1 && spec.Params[0].Name == "self" {
+	if spec.AnyArgs {
+		args = []Val{fv}
+	} else if len(spec.Params) == len(args)+1 && spec.Params[0].Name == "self" {
 		args = append([]Val{fv}, args...)
 	}
 	var rt types.Type
